@@ -382,6 +382,57 @@ impl Runner {
             }
             ["P"] => "ok".into(),
             ["W"] => "ok 0".into(),
+            ["WA", h] | ["WV", h, _] => {
+                let Some(bs) = unhex(h) else { return "BADOP".into() };
+                if self.parser.is_none() {
+                    return "BADOP".into();
+                }
+                let cuts: Vec<usize> = if toks[0] == "WV" {
+                    toks[2].split(',').filter_map(|x| x.parse::<usize>().ok()).filter(|c| *c <= bs.len()).collect()
+                } else {
+                    vec![]
+                };
+                let vectored = toks[0] == "WV";
+                self.guarded(|me| {
+                    use std::io::Write as _;
+                    match me.parser.as_mut().unwrap() {
+                        AnyParser::Plain(p) => {
+                            if vectored {
+                                // slices at the given cut points; write_vectored may take only part of
+                                // what it is offered: offer the rest again until everything is taken
+                                let mut bounds = vec![0usize];
+                                bounds.extend(cuts.iter().copied());
+                                bounds.push(bs.len());
+                                bounds.sort_unstable();
+                                let mut done = 0usize;
+                                let mut guard = 0;
+                                while done < bs.len() && guard < 100_000 {
+                                    guard += 1;
+                                    let mut slices: Vec<std::io::IoSlice> = vec![];
+                                    for w in bounds.windows(2) {
+                                        let (a, b) = (w[0].max(done), w[1]);
+                                        if a < b {
+                                            slices.push(std::io::IoSlice::new(&bs[a..b]));
+                                        }
+                                    }
+                                    let n = p.write_vectored(&slices).unwrap();
+                                    if n == 0 {
+                                        return format!("ok {done} (write_vectored took nothing)");
+                                    }
+                                    done += n;
+                                }
+                                p.flush().unwrap();
+                                format!("ok {done}")
+                            } else {
+                                p.write_all(&bs).unwrap();
+                                p.flush().unwrap();
+                                format!("ok {}", bs.len())
+                            }
+                        }
+                        AnyParser::Rec(_) => "BADOP".into(),
+                    }
+                })
+            }
             ["P", h] | ["W", h] => {
                 let Some(bs) = unhex(h) else { return "BADOP".into() };
                 let is_w = toks[0] == "W";
@@ -555,6 +606,29 @@ impl Runner {
                         _ => return "BADOP".into(),
                     };
                     format!("b {}", hex(&bs))
+                })
+            }
+            ["K", k] => {
+                // the side conditions of the C02 theorems on (previous = slot k, current): the harness's
+                // own evaluation (through the public API), compared with the model's `linesOkWB`
+                let Some(k) = num(k) else { return "BADOP".into() };
+                if self.parser.is_none() {
+                    return "NOPARSER".into();
+                }
+                let Some(Some(prev)) = self.slots.get(k as usize).cloned() else {
+                    return "NOSLOT".into();
+                };
+                self.guarded(|me| {
+                    let s = me.screen().unwrap();
+                    let sized = s.size() == prev.size();
+                    let off0 = s.scrollback() == 0 && prev.scrollback() == 0;
+                    let (a, b) = if sized && off0 {
+                        let (os, op) = (obs(s), obs(&prev));
+                        (lines_ok_w(&os, &op), lines_ok_w(&op, &os))
+                    } else {
+                        (false, false)
+                    };
+                    format!("k {} {} {} {}", u8::from(sized), u8::from(off0), u8::from(a), u8::from(b))
                 })
             }
             ["T"] => {
@@ -754,6 +828,33 @@ pub fn obs(s: &vt100::Screen) -> Obs {
         pen: pen_str(s),
         modes: modes_str(s),
     }
+}
+
+/// `LineOkW` of every line (lean/Vt/Props/DiffWrap.lean: `linesOkWB`), on observable states: the side
+/// conditions under which `state_diff_wrapped` / `chain_wrapped` PROVE that the diff of `s` against `p`
+/// reproduces `s` — `noF8b` where the line is wrapped in both (a wide character of `p` in column cols-2
+/// faces text in `s`), `NoPad` where the line above is wrapped in both (the first changed cell of the
+/// line, if it is not in column 0, holds text).  Both screens must be at scrollback offset 0.
+pub fn lines_ok_w(s: &Obs, p: &Obs) -> bool {
+    let has = |c: &str| !c.starts_with('/');
+    let wide = |c: &str| c.split('/').nth(1) == Some("1");
+    for i in 0..s.cells.len().min(p.cells.len()) {
+        let (r, pr) = (&s.cells[i], &p.cells[i]);
+        if s.wrapped[i] && p.wrapped[i] && r.len() >= 2 {
+            let n = r.len() - 2;
+            if pr.get(n).is_some_and(|c| wide(c)) && !has(&r[n]) {
+                return false;
+            }
+        }
+        if i > 0 && s.wrapped[i - 1] && p.wrapped[i - 1] {
+            if let Some(k) = (0..r.len().min(pr.len())).find(|&k| r[k] != pr[k]) {
+                if k > 0 && !has(&r[k]) {
+                    return false;
+                }
+            }
+        }
+    }
+    true
 }
 
 /// first difference between two observable states, honouring the C01 exemption
